@@ -125,6 +125,10 @@ class Action(BaseForm):
 
     def __init__(self, left, right):
         """Initialise."""
+        if self is left or self is right:
+            # __new__ simplified Action(identity, x) to the existing Action x:
+            # python calls __init__ on it again, don't overwrite its operands.
+            return
         BaseForm.__init__(self)
 
         self._left = left
